@@ -358,6 +358,31 @@ Section L.
           -- intros t' Ht' Hi. apply NEWID; auto. apply in_or_app. right; left; auto.
   Qed.
 
+  (* C01/C18: whenever a task is handed out, every task of the project AS IT IS THEN - declared, or
+     generated earlier in this build - that declares something it reads has been handed out (and, the
+     loop being sequential, has finished) *)
+  Lemma pick_after_current_producers b h i :
+    PI b h -> pick (pb_sorter b) pref = Some i ->
+    forall u t, In u (pb_tasks b) -> In t (pb_tasks b) -> tid (base t) = i -> feeds u t ->
+    In (tid (base u)) h.
+  Proof.
+    intros L P u t Hu Ht Hi Hf.
+    pose proof (pick_valid _ _ _ P) as V.
+    assert (Hready : In i (ready (pb_sorter b))).
+    { destruct V as (_ & I & _). apply I. left; reflexivity. }
+    apply ready_spec in Hready. destruct Hready as (Hg & _ & Hpred).
+    assert (R : Reach (pb_edges b) (tid (base u)) i).
+    { rewrite <- Hi. apply (feeds_reach (pb_tasks b) (pb_edges b) (pb_desel b) u t); auto. apply (pi_dag b h L). }
+    apply (pi_fin b h L).
+    assert (Ed : In (tid (base u), i) (gedges (pb_sorter b))).
+    { rewrite (pi_gedges b h L). apply closure_edges_spec. repeat split.
+      - unfold pids. apply in_map_iff. exists u. split; auto.
+      - unfold pids. apply in_map_iff. exists t. split; auto.
+      - apply reachb_iff. exact R. }
+    destruct (pi_covers b h L _ _ Ed) as [G|Fi]; auto.
+    exfalso. exact (Hpred _ Ed G).
+  Qed.
+
   Lemma loop_PI fuel : forall b h, PI b h -> exists h', PI (ploopf fuel b) h'.
   Proof.
     induction fuel as [|f IH]; intros b h L; simpl; [eauto|].
